@@ -18,6 +18,7 @@ var commands = map[string]func([]string){
 	"c14gen":  cmdC14Gen,
 	"c19":     cmdC19,
 	"c13":     cmdC13,
+	"c13gen":  cmdC13Gen,
 	"c17x":    cmdC17X,
 	"c18":     cmdC18,
 	"c14rand": cmdC14Rand,
